@@ -165,7 +165,9 @@ pub fn new_vm_rec(w: &World) -> VmR {
 }
 
 /// mode "exec" (see vmcore::exec_one) plus the access log
-pub fn exec_one_acc(out: &mut Out, run: u64, i: u64, vm: &mut VmR, sets: &[(usize, u64)], raw: u32) -> bool {
+pub fn exec_one_acc(out: &mut Out, run: u64, i: u64, vm: &mut VmR, sets: &[(usize, u64)], raw: u32) -> bool { exec_one_tagged(out, run, i, vm, sets, raw, None) }
+
+pub fn exec_one_tagged(out: &mut Out, run: u64, i: u64, vm: &mut VmR, sets: &[(usize, u64)], raw: u32, part: Option<&str>) -> bool {
     let mut po = Map::new();
     for (i, v) in sets { vm.registers_mut()[*i] = *v; po.insert(i.to_string(), Value::String(v.to_string())); }
     let pre = snap(vm);
@@ -177,6 +179,7 @@ pub fn exec_one_acc(out: &mut Out, run: u64, i: u64, vm: &mut VmR, sets: &[(usiz
             let rc: Vec<Receipt> = vm.receipts().to_vec();
             let mut ev = merge(step_event(run, i, "exec", &pre, &post, Some(raw), &rc), out_of_execute(&res));
             ev["poke"] = Value::Object(po);
+            if let Some(p) = part { ev["part"] = json!(p); }
             attach(&mut ev, vm);
             out.ev(ev);
             matches!(res, Ok(fuel_vm::state::ExecuteState::Proceed))
@@ -503,8 +506,8 @@ fn pick_instr(rng: &mut StdRng, fx: &Fix, s: &Session, heap0: u64, only: Option<
 fn exec_part(o: &Opts, out: &mut Out, run: &mut u64) {
     let thorough = o.thorough();
     let mut rng = o.rng(36);
-    let sessions = if thorough { 35 } else { 5 };
-    let per = if thorough { 320 } else { 160 };
+    let sessions = if thorough { 35 } else { 4 };
+    let per = if thorough { 320 } else { 170 };
     for k in 0..sessions {
         let gas = match k % 4 { 0 => GasCosts::default(), 1 => varied_gas(&mut rng, 9, true), 2 => GasCosts::unit(), _ => varied_gas(&mut rng, 300, false) };
         let max_size = match k % 3 { 0 => 102_400, 1 => 1_000, _ => 64 };
@@ -569,7 +572,7 @@ fn ldcpad_part(o: &Opts, out: &mut Out, run: &mut u64) {
         for i in 0..(if thorough { 20 } else { 8 }) {
             let (mut sets, word) = pick_instr(&mut rng, &fx, &s, MEM, Some(if (k + i) % 2 == 0 { "LDC0" } else { "LDC1" }), true);
             sets.extend([(RCGAS, 10_000_000), (RGGAS, 10_000_000), (RPC, pc0)]);
-            exec_one_acc(out, *run, i as u64, &mut s.vm, &sets, word);
+            exec_one_tagged(out, *run, i as u64, &mut s.vm, &sets, word, Some("ldcpad"));
         }
     }
 }
@@ -670,7 +673,8 @@ fn c30_part(o: &Opts, out: &mut Out, run: &mut u64, known: bool) {
                 for target in 0..4u16 {
                     let is_known = kind == "CALL" && target >= 2;
                     if is_known != known { continue; }
-                    if known && !thorough && in_contract && target == 3 && rep == 0 { /* quick: three of the four known shapes */ }
+                    // quick tier: two of the four known shapes (script -> stored outsider, contract -> unknown id)
+                    if known && !thorough && (in_contract != (target == 3)) { continue; }
                     k += 1;
                     c30_one(o, out, run, &mut rng, k, (kind, target), in_contract, if rep % 2 == 0 { 2 } else { 4 }, if known { "c30call" } else { "c30" });
                 }
